@@ -258,8 +258,11 @@ func c13RunRound(c c13Round) (msg string) {
 	if c13Has(c.Background, "subscriber") {
 		ch := e.EventBus.Subscribe(1) // never read: writers must not be delayed
 		defer func() {
-			if !closed.Load() {
-				e.EventBus.Unsubscribe(ch)
+			if !closed.Load() && hung.Load() == nil {
+				// a wedged bus is left behind instead of blocking the report behind Unsubscribe
+				if _, ok := c13Call("EventBus.Unsubscribe", func() error { e.EventBus.Unsubscribe(ch); return nil }, &hung); !ok && msg == "" {
+					msg = hung.Load().(string)
+				}
 			}
 		}()
 	}
